@@ -24,8 +24,8 @@ func bodyBytes(seed int64, size int) []byte {
 }
 
 type attemptSeen struct {
-	k                                               int
-	methodEq, urlEq, hdrEq, clEq, teEmpty, bodyEq   bool
+	k                                             int
+	methodEq, urlEq, hdrEq, clEq, teEmpty, bodyEq bool
 }
 
 // bufHandler is the protected handler: it checks what it was handed against the client's request and
